@@ -3,8 +3,9 @@
    exactly when valid — defect D5 repaired; LLO and Mercury onchain; int192); their documented rejections.
    The observation envelope is proved at byte level for ANY order of the two proto map fields and of the removal ids
    (C16_observation_roundtrip); the retirement report through its JSON codec at byte level (C16_retirement_roundtrip).
-   Remaining PARTIAL part: the Mercury offchain config (JSON with a decimal string) has no Coq model; its round-trip
-   verdict is computed on the implementation on every run. *)
+   and the Mercury offchain config (JSON with the fee as a quoted decimal string, C16_mercury_offchain_roundtrip).
+   The two JSON decoders are modelled on the canonical shapes their encoders produce; encoding/json's treatment of
+   other inputs (whitespace, field order, duplicates) is library behaviour, not modelled. *)
 From stdpp Require Import gmap.
 From DS Require Import Base Decimal Wire StreamValue Config Outcome OutcomeCodec ObservationCodec.
 From DS Require Import RetirementJson.
@@ -51,6 +52,12 @@ Example C16_nv_retirement :
     str_bytes "{""ProtocolVersion"":1,""ValidAfterNanoseconds"":{""1"":18446744073709551615,""10"":7,""2"":5}}" /\
   rr_encode 0 None = str_bytes "{""ProtocolVersion"":0,""ValidAfterNanoseconds"":null}".
 Proof. split; vm_compute; reflexivity. Qed.
+
+(* Mercury offchain config: {"expirationWindow":N,"baseUSDFee":"<Decimal.String()>"}; the fee comes back as the same number *)
+Theorem C16_mercury_offchain_roundtrip : forall window fee, 0 <= window ->
+  exists fee', merc_off_decode (merc_off_encode window fee) = Some (window, fee') /\ deqvb fee fee' = true.
+Proof. exact merc_off_roundtrip. Qed.
+Print Assumptions C16_mercury_offchain_roundtrip.
 
 (* LLO offchain config: round-trips when valid (version 0 with interval 0, version 1 with interval >= 1), is an
    error otherwise; undecodable bytes give the documented zero configuration *)
